@@ -9,6 +9,8 @@ import AsmjitVerif.Lemmas.C18Bits2
 import AsmjitVerif.Lemmas.C18HashMap
 import AsmjitVerif.Lemmas.C18ListPool
 import AsmjitVerif.Lemmas.C18TreeIns11
+import AsmjitVerif.Lemmas.C18TreeRem18
+import AsmjitVerif.Lemmas.C18ListPool2
 import AsmjitVerif.Lemmas.C18Str2
 import AsmjitVerif.Lemmas.C18Arena2
 import AsmjitVerif.Lemmas.C18Vector3
@@ -391,6 +393,76 @@ theorem tree_insert_refines {h : Tree} {t : T} {k : Nat} (hr : Represents h t) (
 theorem tree_refines_set_inserts (ops : List TOp) (hins : ∀ op ∈ ops, ∃ k, op = .insert k) (hlen : ops.length < 2 ^ 64) :
     ∃ t, Represents (runModel ops {}) t ∧ t.keys = runSpec ops [] ∧ t.BST ∧ t.RB :=
   Ins.tree_refines_set_inserts ops hins hlen
+/-- `remove_refines` (shape part, BOTH paths of `remove`: bottom node = found node, and the `replaceLoop` re-link of the
+bottom node into the found node's place): removing a tree node from a represented search tree gives a represented tree
+whose key list is the textbook ordered-set erase, again a search tree, root black, exactly the passed node gone.
+No red-black hypothesis is needed for this, only enough fuel (`height ≤ 256`). -/
+theorem tree_remove_refines_shape {h : Tree} {t : T} {node : Nat} (hr : Represents h t) (hbst : t.BST)
+    (hmem : node ∈ t.idxs) (hfuel : t.height ≤ kFuel) :
+    ∃ t', Represents (removeNode h node) t' ∧ t'.keys = setErase (key h node) t.keys ∧ t'.BST ∧
+      t'.idxs.Perm (t.idxs.erase node) ∧ t'.isRed = false ∧ 2 ≤ (removeNode h node).nodes.size :=
+  Rem.remove_refines_shape hr hbst hmem hfuel
+
+/-- what is NOT proved about `remove`: that it keeps `noRedRed` and the equal black height (`rb_balanced` for remove) -/
+def RemoveKeepsColours : Prop :=
+  ∀ (h : Tree) (t : T) (n : Nat), Represents h t → t.BST → t.RB → 2 ≤ h.nodes.size → t.size < 2 ^ 64 → n ∈ t.idxs →
+    ∀ t', Represents (removeNode h n) t' → t'.noRedRed ∧ ∃ m, t'.blackH m
+
+/- Full statement wanted (`tree_refines_set` + `rb_balanced`): for every history of inserts and removes from the empty tree
+   the heap represents a red-black search tree whose keys are the textbook ordered set.  Proved unconditionally: histories of
+   inserts (`tree_refines_set_inserts`), every single remove on any search tree (`tree_remove_refines_shape`).  For MIXED
+   histories the next insert/remove needs the red-black invariant of its input (it bounds the height, hence the fuel, and
+   the top-down insert is only shape-correct on a tree without red-red); that remove preserves the colour invariant is the
+   missing lemma, so it is an explicit hypothesis here.  (The monitor checks it after every remove on the real code.) -/
+theorem tree_refines_set_partial (hc : RemoveKeepsColours) (ops : List TOp) (hlen : ops.length < 2 ^ 64) :
+    ∃ t, Represents (runModel ops {}) t ∧ t.keys = runSpec ops [] ∧ t.BST ∧ t.RB :=
+  Ins.tree_refines_set (fun h t n hr hb hrb hsz hsize hn => by
+    obtain ⟨t', h1, h2, h3, _, h5, h6⟩ := Rem.removeStepShape h t n hr hb hrb hsz hsize hn
+    have hcol := hc h t n hr hb hrb hsz hsize hn t' h1
+    exact ⟨t', h1, h2, h3, ⟨h5, hcol.1, hcol.2⟩, h6⟩) ops hlen
+
+-- non-vacuity: a real history with inserts and removes, evaluated
+example : Tree.inorder 64 (runModel [.insert 5, .insert 3, .insert 8, .insert 9, .remove 5, .insert 4, .remove 3] {})
+    (runModel [.insert 5, .insert 3, .insert 8, .insert 9, .remove 5, .insert 4, .remove 3] {}).root = [4, 8, 9] := by decide
+example : runSpec [.insert 5, .insert 3, .insert 8, .insert 9, .remove 5, .insert 4, .remove 3] [] = [4, 8, 9] := by decide
 end TreeS
+
+/-! ## ArenaList: every operation transforms the represented list (`IsList h l xs`: `xs` are the node indices from `first`
+to `last`, links consistent in both directions) like the textbook list operation; both traversals read it back.
+The sequence theorem over all operations is NOT proved (only for prepend/pop_first, `list_refines_list_partial`). -/
+section ListS
+open AsmjitVerif.ListPool AsmjitVerif.ListPool2 AsmjitVerif.Spec.C18HashList
+
+theorem list_append_spec {h l xs n} (hl : ListPool2.IsList h l xs) (hn0 : n ≠ 0) (hns : n < h.size) (hnx : n ∉ xs)
+    (hnext : (nd h n).next = 0) : ListPool2.IsList (addNode h l n true).1 (addNode h l n true).2 (xs ++ [n]) :=
+  addNode_append hl hn0 hns hnx hnext
+theorem list_prepend_spec {h l xs n} (hl : ListPool2.IsList h l xs) (hn0 : n ≠ 0) (hns : n < h.size) (hnx : n ∉ xs)
+    (hprev : (nd h n).prev = 0) : ListPool2.IsList (addNode h l n false).1 (addNode h l n false).2 (n :: xs) :=
+  ListPool2.addNode_prepend hl hn0 hns hnx hprev
+theorem list_insert_after_spec {h l L ref R n} (hl : ListPool2.IsList h l (L ++ ref :: R)) (hn0 : n ≠ 0) (hns : n < h.size)
+    (hnx : n ∉ L ++ ref :: R) : ListPool2.IsList (insertNode h l ref n true).1 (insertNode h l ref n true).2 (L ++ ref :: n :: R) :=
+  insertNode_after hl hn0 hns hnx
+theorem list_insert_before_spec {h l L ref R n} (hl : ListPool2.IsList h l (L ++ ref :: R)) (hn0 : n ≠ 0) (hns : n < h.size)
+    (hnx : n ∉ L ++ ref :: R) : ListPool2.IsList (insertNode h l ref n false).1 (insertNode h l ref n false).2 (L ++ n :: ref :: R) :=
+  insertNode_before hl hn0 hns hnx
+theorem list_unlink_spec {h l L n R} (hl : ListPool2.IsList h l (L ++ n :: R)) :
+    ListPool2.IsList (unlink h l n).1 (unlink h l n).2 (L ++ R) ∧ (nd (unlink h l n).1 n).prev = 0 ∧ (nd (unlink h l n).1 n).next = 0 :=
+  unlink_erase hl
+theorem list_pop_spec {h l L n} (hl : ListPool2.IsList h l (L ++ [n])) : ListPool2.IsList (pop h l).1 (pop h l).2.1 L ∧ (pop h l).2.2 = n :=
+  pop_dropLast hl
+theorem list_pop_first_spec {h l n R} (hl : ListPool2.IsList h l (n :: R)) :
+    ListPool2.IsList (popFirst h l).1 (popFirst h l).2.1 R ∧ (popFirst h l).2.2 = n :=
+  ListPool2.popFirst_tail hl
+/-- forward traversal reads the list, backward traversal reads its reverse (link symmetry) -/
+theorem list_walk_spec {h l xs} (hl : ListPool2.IsList h l xs) (fuel : Nat) (hfuel : xs.length ≤ fuel) :
+    walk fuel h l.first true = xs.map (fun x => (nd h x).val) ∧
+    walk fuel h l.last false = (xs.map (fun x => (nd h x).val)).reverse :=
+  ⟨walk_forward hl fuel hfuel, walk_backward hl fuel hfuel⟩
+/-- sequence theorem, only for the sub-language {prepend, pop_first} -/
+theorem list_refines_list_partial (ops : List LOp) (hops : ∀ op ∈ ops, simpleOp op) :
+    ∃ xs, ListPool.IsList (ops.foldl stepListP (#[{}], {})).1 (ops.foldl stepListP (#[{}], {})).2 xs ∧
+      walk xs.length (ops.foldl stepListP (#[{}], {})).1 (ops.foldl stepListP (#[{}], {})).2.first true = runList [] ops :=
+  ListPool.list_refines_list_partial ops hops
+end ListS
 
 end AsmjitVerif.C18
